@@ -6,6 +6,7 @@
 
 pub mod circuit;
 pub mod gate;
+pub mod generate;
 pub mod linalg;
 pub mod openqasm;
 pub mod phase;
